@@ -25,8 +25,8 @@ Definition surf_data (s : surface float) : Z * list float :=
   | SGeneralQuadric abc def ghi j => (16%Z, ofv abc ++ ofv def ++ ofv ghi ++ [j])
   end.
 
-Definition run_xlate (tra : vec3 float) (s : surface float) (pts : list (vec3 float)) :=
-  let s' := translate_surface tra s in
+Definition run_xlate (fixed : bool) (tra : vec3 float) (s : surface float) (pts : list (vec3 float)) :=
+  let s' := translate_surface_gen fixed tra s in
   (surf_data s', map (fun p => (ssense_Z (surf_sense s p), ssense_Z (surf_sense s' (tr_up tra p)),
                                 ofv (tr_up tra p))) pts).
 Definition run_xform (tf : transformation float) (s : surface float) (pts : list (vec3 float)) :=
